@@ -69,6 +69,7 @@ type Client struct {
 	crashed  bool
 	allReqs  int // never reset
 	allMuts  int
+	allEff   int // mutations that changed the bucket (PUT of new/different content, DELETE of an existing object)
 
 	// when / perm plan for the next mergeRoots of this client
 	planWhen *time.Time
@@ -173,6 +174,8 @@ func (c *Client) before(ctx context.Context, op, key string, mutating bool) erro
 
 func (c *Client) totReqs() int { c.pmu.Lock(); defer c.pmu.Unlock(); return c.allReqs }
 func (c *Client) totMuts() int { c.pmu.Lock(); defer c.pmu.Unlock(); return c.allMuts }
+func (c *Client) totEff() int  { c.pmu.Lock(); defer c.pmu.Unlock(); return c.allEff }
+func (c *Client) addEff()      { c.pmu.Lock(); c.allEff++; c.pmu.Unlock() }
 
 func (c *Client) logReq(op, key, res string, body []byte) {
 	// caller holds c.st.mu
@@ -240,6 +243,9 @@ func (c *Client) DeleteObjectWithContext(ctx aws.Context, in *s3.DeleteObjectInp
 	}
 	c.st.mu.Lock()
 	defer c.st.mu.Unlock()
+	if _, existed := c.st.objs[*in.Key]; existed {
+		c.addEff()
+	}
 	delete(c.st.objs, *in.Key)
 	c.logReq("DELETE", *in.Key, "ok", nil)
 	return &s3.DeleteObjectOutput{}, nil
@@ -323,6 +329,9 @@ func (c *Client) PutObjectWithContext(ctx aws.Context, in *s3.PutObjectInput, _ 
 	}
 	c.st.mu.Lock()
 	defer c.st.mu.Unlock()
+	if old, existed := c.st.objs[*in.Key]; !existed || !bytes.Equal(old, b) {
+		c.addEff()
+	}
 	c.st.objs[*in.Key] = b
 	h := hashOf(b)
 	if c.st.putHashes[*in.Key] == nil {
